@@ -119,6 +119,115 @@ fn quote_expr(e: &syn::Expr) -> String {
     e.to_token_stream().to_string()
 }
 
+
+// ---------------------------------------------------------------------------- Rust expression / pattern AST (JSON)
+
+fn path_str(p: &syn::Path) -> String {
+    p.segments.iter().map(|s| s.ident.to_string()).collect::<Vec<_>>().join("::")
+}
+
+fn rpat_json(p: &syn::Pat) -> Value {
+    use syn::__private::ToTokens;
+    match p {
+        syn::Pat::Ident(i) => json!({"k":"id","s":i.ident.to_string()}),
+        syn::Pat::Wild(_) => json!({"k":"wild"}),
+        syn::Pat::Tuple(t) => json!({"k":"tuple","e":t.elems.iter().map(rpat_json).collect::<Vec<_>>()}),
+        syn::Pat::TupleStruct(t) => json!({"k":"ts","path":path_str(&t.path),"e":t.elems.iter().map(rpat_json).collect::<Vec<_>>()}),
+        syn::Pat::Path(pp) => json!({"k":"path","s":path_str(&pp.path)}),
+        syn::Pat::Reference(r) => rpat_json(&r.pat),
+        syn::Pat::Type(t) => rpat_json(&t.pat),
+        syn::Pat::Paren(t) => rpat_json(&t.pat),
+        syn::Pat::Lit(l) => json!({"k":"lit","s":l.to_token_stream().to_string()}),
+        syn::Pat::Or(o) => json!({"k":"or","e":o.cases.iter().map(rpat_json).collect::<Vec<_>>()}),
+        other => json!({"k":"other","s":other.to_token_stream().to_string()}),
+    }
+}
+
+fn rblock_json(b: &syn::Block) -> Value {
+    let mut stmts: Vec<Value> = Vec::new();
+    let mut tail = Value::Null;
+    let n = b.stmts.len();
+    for (i, s) in b.stmts.iter().enumerate() {
+        match s {
+            syn::Stmt::Local(l) => {
+                let (e, els) = match &l.init {
+                    Some(init) => (rexpr_json(&init.expr), init.diverge.as_ref().map(|(_, d)| rexpr_json(d)).unwrap_or(Value::Null)),
+                    None => (Value::Null, Value::Null),
+                };
+                stmts.push(json!({"k":"let","p":rpat_json(&l.pat),"e":e,"else":els}));
+            }
+            syn::Stmt::Expr(e, semi) => {
+                if i + 1 == n && semi.is_none() {
+                    tail = rexpr_json(e);
+                } else {
+                    stmts.push(json!({"k":"expr","e":rexpr_json(e)}));
+                }
+            }
+            syn::Stmt::Macro(m) => {
+                let v = rmacro_json(&m.mac);
+                if i + 1 == n && m.semi_token.is_none() {
+                    tail = v;
+                } else {
+                    stmts.push(json!({"k":"expr","e":v}));
+                }
+            }
+            syn::Stmt::Item(_) => stmts.push(json!({"k":"item"})),
+        }
+    }
+    json!({"k":"block","s":stmts,"t":tail})
+}
+
+fn rmacro_json(m: &syn::Macro) -> Value {
+    let name = m.path.segments.last().map(|s| s.ident.to_string()).unwrap_or_default();
+    if name == "match_nodes" {
+        return json!({"k":"match_nodes","mn":parse_match_nodes(m)});
+    }
+    json!({"k":"macro","name":name,"tokens":ts_string(&m.tokens)})
+}
+
+fn rexpr_json(e: &syn::Expr) -> Value {
+    use syn::__private::ToTokens;
+    match e {
+        syn::Expr::Lit(l) => json!({"k":"lit","s":l.to_token_stream().to_string()}),
+        syn::Expr::Path(p) => json!({"k":"path","s":path_str(&p.path)}),
+        syn::Expr::Tuple(t) => json!({"k":"tuple","e":t.elems.iter().map(rexpr_json).collect::<Vec<_>>()}),
+        syn::Expr::Array(t) => json!({"k":"array","e":t.elems.iter().map(rexpr_json).collect::<Vec<_>>()}),
+        syn::Expr::Struct(s) => {
+            let fields: Vec<Value> = s.fields.iter().map(|f| {
+                let name = match &f.member {
+                    syn::Member::Named(i) => i.to_string(),
+                    syn::Member::Unnamed(i) => i.index.to_string(),
+                };
+                json!([name, rexpr_json(&f.expr)])
+            }).collect();
+            json!({"k":"struct","path":path_str(&s.path),"fields":fields,"rest":s.rest.as_ref().map(|r| rexpr_json(r)).unwrap_or(Value::Null)})
+        }
+        syn::Expr::Call(c) => json!({"k":"call","f":rexpr_json(&c.func),"a":c.args.iter().map(rexpr_json).collect::<Vec<_>>()}),
+        syn::Expr::MethodCall(c) => json!({"k":"mcall","r":rexpr_json(&c.receiver),"m":c.method.to_string(),"a":c.args.iter().map(rexpr_json).collect::<Vec<_>>()}),
+        syn::Expr::Closure(c) => json!({"k":"closure","p":c.inputs.iter().map(rpat_json).collect::<Vec<_>>(),"b":rexpr_json(&c.body)}),
+        syn::Expr::Block(b) => rblock_json(&b.block),
+        syn::Expr::Reference(r) => rexpr_json(&r.expr),
+        syn::Expr::Paren(r) => rexpr_json(&r.expr),
+        syn::Expr::Group(r) => rexpr_json(&r.expr),
+        syn::Expr::Unary(u) => match u.op {
+            syn::UnOp::Deref(_) => rexpr_json(&u.expr),
+            _ => json!({"k":"un","op":u.op.to_token_stream().to_string(),"e":rexpr_json(&u.expr)}),
+        },
+        syn::Expr::Binary(b) => json!({"k":"bin","op":b.op.to_token_stream().to_string(),"a":rexpr_json(&b.left),"b":rexpr_json(&b.right)}),
+        syn::Expr::Field(f) => json!({"k":"field","e":rexpr_json(&f.base),"m":f.member.to_token_stream().to_string()}),
+        syn::Expr::Try(t) => json!({"k":"try","e":rexpr_json(&t.expr)}),
+        syn::Expr::Return(r) => json!({"k":"return","e":r.expr.as_ref().map(|x| rexpr_json(x)).unwrap_or(Value::Null)}),
+        syn::Expr::Macro(m) => rmacro_json(&m.mac),
+        syn::Expr::If(i) => json!({"k":"if","c":rexpr_json(&i.cond),"t":rblock_json(&i.then_branch),
+                                   "e":i.else_branch.as_ref().map(|(_, x)| rexpr_json(x)).unwrap_or(Value::Null)}),
+        syn::Expr::Let(l) => json!({"k":"letcond","p":rpat_json(&l.pat),"e":rexpr_json(&l.expr)}),
+        syn::Expr::Match(m) => json!({"k":"match","e":rexpr_json(&m.expr),"arms":m.arms.iter().map(|a| json!({
+            "p":rpat_json(&a.pat),"g":a.guard.as_ref().map(|(_, g)| rexpr_json(g)).unwrap_or(Value::Null),"b":rexpr_json(&a.body)})).collect::<Vec<_>>()}),
+        syn::Expr::Cast(c) => rexpr_json(&c.expr),
+        other => json!({"k":"other","s":other.to_token_stream().to_string()}),
+    }
+}
+
 fn parse_match_nodes(mac: &syn::Macro) -> Value {
     // <expr> ; [pat] => body , [pat] => body , ...
     let mut head: Vec<TokenTree> = Vec::new();
@@ -178,9 +287,11 @@ fn parse_match_nodes(mac: &syn::Macro) -> Value {
         let body_ts: TokenStream = body.into_iter().collect();
         let mut lits = StructLits(Vec::new());
         let mut body_kind = "tokens";
+        let mut body_ast = Value::Null;
         if let Ok(expr) = syn::parse2::<syn::Expr>(body_ts.clone()) {
             lits.visit_expr(&expr);
             body_kind = "expr";
+            body_ast = rexpr_json(&expr);
         }
         // pattern elements
         let mut elems: Vec<Value> = Vec::new();
@@ -188,13 +299,18 @@ fn parse_match_nodes(mac: &syn::Macro) -> Value {
             // name ( binding ) [..]
             let mut name = String::new();
             let mut binding = String::new();
+            let mut bind_ast = Value::Null;
             let mut variadic = false;
             let mut dots = 0;
             for tt in &el {
                 match tt {
                     TokenTree::Ident(id) if name.is_empty() => name = id.to_string(),
                     TokenTree::Group(g) if g.delimiter() == Delimiter::Parenthesis => {
-                        binding = ts_string(&g.stream())
+                        binding = ts_string(&g.stream());
+                        use syn::parse::Parser;
+                        if let Ok(p) = syn::Pat::parse_single.parse2(g.stream()) {
+                            bind_ast = rpat_json(&p);
+                        }
                     }
                     TokenTree::Punct(p) if p.as_char() == '.' => {
                         dots += 1;
@@ -205,13 +321,14 @@ fn parse_match_nodes(mac: &syn::Macro) -> Value {
                     _ => {}
                 }
             }
-            elems.push(json!({"rule": name, "binding": binding, "variadic": variadic}));
+            elems.push(json!({"rule": name, "binding": binding, "bind_ast": bind_ast, "variadic": variadic}));
         }
         arms.push(json!({
             "line": line,
             "pattern": elems,
             "body": ts_string(&body_ts),
             "body_kind": body_kind,
+            "body_ast": body_ast,
             "structs": lits.0,
         }));
     }
@@ -376,6 +493,11 @@ fn rust_file_json(path: &str) -> Value {
             "calls": sc.calls,
             "rule_filters": sc.rule_filters,
             "tail": tail,
+            "params": sig.inputs.iter().map(|a| match a {
+                syn::FnArg::Typed(t) => rpat_json(&t.pat),
+                syn::FnArg::Receiver(_) => json!({"k":"id","s":"self"}),
+            }).collect::<Vec<_>>(),
+            "body_ast": rblock_json(block),
             "body": block.to_token_stream().to_string(),
         })
     }
